@@ -249,6 +249,34 @@ pub fn outboard(a: &[u128]) -> Vec<u128> {
             let r = block_on(FC::init_from(&mut ob, Bytes::from(data.clone())));
             (io_rc(&r), Some(Ob::PostIO(PostOrderOutboard { root: ob.root, tree: ob.tree, data: ob.data.to_vec() })))
         }
+        15 => {
+            // two outboards in a row from the same seekable handle: the second one is observed
+            let mut cur = Cursor::new(&data);
+            let _first = <PostOrderOutboard<Vec<u8>> as SC>::create(&mut cur, bsz);
+            let r = <PreOrderOutboard<Vec<u8>> as SC>::create(&mut cur, bsz);
+            (io_rc(&r), r.ok().map(Ob::PreIO))
+        }
+        16 => {
+            // create() on a handle that is not at position 0: it measures and rewinds, the whole blob counts
+            let mut cur = Cursor::new(&data);
+            cur.set_position(std::cmp::min(8, data.len() as u64));
+            let r = <PostOrderOutboard<Vec<u8>> as SC>::create(&mut cur, bsz);
+            (io_rc(&r), r.ok().map(Ob::PostIO))
+        }
+        17 => {
+            // create_sized from a source that holds more bytes than `size`
+            let mut longer = data.clone();
+            longer.extend_from_slice(&[0x5Au8; 3000]);
+            let r = <PreOrderOutboard<Vec<u8>> as SC>::create_sized(Cursor::new(&longer), size, bsz);
+            (io_rc(&r), r.ok().map(Ob::PreIO))
+        }
+        18 => {
+            let mut longer = data.clone();
+            longer.extend_from_slice(&[0x5Au8; 3000]);
+            let mut ob = PostOrderOutboard { root: blake3::Hash::from([0xAA; 32]), tree: t, data: stale(0) };
+            let r = SC::init_from(&mut ob, Cursor::new(&longer));
+            (io_rc(&r), Some(Ob::PostIO(ob)))
+        }
         _ => panic!("entry"),
     };
     match ob {
@@ -516,8 +544,8 @@ pub fn decode(a: &[u128]) -> Vec<u128> {
                 let mut it = if driver == 0 {
                     sync::DecodeResponseIter::new(root, t, &mut rd, &ranges)
                 } else {
-                    // the public constructor that takes a caller-provided buffer
-                    sync::DecodeResponseIter::new_with_buffer(root, t, &mut rd, &ranges, bytes::BytesMut::with_capacity(t.block_size().bytes()))
+                    // the public constructor that takes a caller-provided buffer: a recycled, non-empty one
+                    sync::DecodeResponseIter::new_with_buffer(root, t, &mut rd, &ranges, bytes::BytesMut::from(&vec![0xEEu8; t.block_size().bytes() + 7][..]))
                 };
                 if it.tree() != t {
                     tree_ok = 0;
@@ -656,6 +684,7 @@ pub fn validate(a: &[u128]) -> Vec<u128> {
                     *x = 0;
                 }
             }
+            4 => data.truncate(pos),
             _ => {
                 if let Some(d) = ob.data_mut() {
                     for x in d.iter_mut().skip(pos) {
@@ -732,7 +761,7 @@ pub fn agree_dec(a: &[u128]) -> Vec<u128> {
 /// agree_ob: args [kind, seed, size, bs] -> all 15 creation entry points' observations concatenated
 pub fn agree_ob(a: &[u128]) -> Vec<u128> {
     let mut o = Vec::new();
-    for e in 0..15u128 {
+    for e in 0..19u128 {
         let mut b = a.to_vec();
         b.push(e);
         let r = match std::panic::catch_unwind(std::panic::AssertUnwindSafe(|| outboard(&b))) {
